@@ -1240,7 +1240,7 @@ func (m *Memberlist) suspectNode(s *suspect) {
 	min := suspicionTimeout(m.config.SuspicionMult, n, m.config.ProbeInterval)
 	max := time.Duration(m.config.SuspicionMaxTimeoutMult) * min
 	fn := func(numConfirmations int) {
-		verifYield("susptimeout", m)
+		verifYieldKey("susptimeout", m, s.Node)
 		var d *dead
 
 		m.nodeLock.Lock()
